@@ -262,6 +262,7 @@ func runCase(c Case) (res vt.Result, fail *vt.Fail) {
 		return nil
 	}
 
+	annObj := map[int]map[string]string{}
 	ops := append([]Op(nil), c.Ops...)
 	for i := 0; i < len(ops); i++ {
 		op := ops[i]
@@ -311,6 +312,16 @@ func runCase(c Case) (res vt.Result, fail *vt.Fail) {
 			}
 			desc := d.Nodes[op.N].Desc
 			desc.Annotations = op.Ann
+			if op.Ann != nil {
+				// a caller tagging one descriptor value under several references hands
+				// the store the same annotation map each time
+				if prev, ok := annObj[op.N]; ok && i%2 == 0 {
+					desc.Annotations = prev
+					classes["same-descriptor-value-tagged-again"] = true
+				} else {
+					annObj[op.N] = op.Ann
+				}
+			}
 			if op.Op == "tagfault" && c.AutoSave {
 				obst := filepath.Join(dir, "index.json.tmp")
 				if err := os.Mkdir(obst, 0o755); err != nil {
